@@ -97,3 +97,18 @@ Definition is_template_edge (e : medge) : bool := match e_bonding e with None =>
 Definition copies_of (m : mol) (bs : list block) : Prop :=
   Forall2 copy_of (concat (map block_spec bs)) (m_nodes m) /\
   filter is_template_edge (m_edges m) = concat (map block_edges bs).
+
+(** ** attribute lists of template nodes *)
+(** template attribute lists as read_fragments returns them: dicts (distinct keys); 'fragid' and
+    'bonding' are kept in their own fields of [tnode]; no chirality annotation 'rs_isomer' *)
+Definition tattrs_ok (a : attrs) : Prop :=
+  NoDup (map fst a) /\ ~ In (S "fragid") (map fst a) /\ ~ In (S "bonding") (map fst a) /\ ~ In (S "rs_isomer") (map fst a).
+Definition frags_attrs_ok (fd : fragdict) : Prop :=
+  Forall (fun ft => Forall (fun t => tattrs_ok (t_attrs t)) (f_nodes (snd ft))) fd.
+
+(** decidable form, evaluated on every case of the checks *)
+Definition tattrs_okb (a : attrs) : bool :=
+  (fix nodupb (l : list pystr) : bool := match l with [] => true | x :: r => negb (str_in x r) && nodupb r end) (map fst a)
+  && negb (str_in (S "fragid") (map fst a)) && negb (str_in (S "bonding") (map fst a)) && negb (str_in (S "rs_isomer") (map fst a)).
+Definition frags_attrs_okb (fd : fragdict) : bool :=
+  forallb (fun ft => forallb (fun t => tattrs_okb (t_attrs t)) (f_nodes (snd ft))) fd.
